@@ -84,6 +84,134 @@ PROPS = {
         "level_note": "Trusted: abstract Store contract (proved for the concrete stores in C01 except Memory.remove), "
                       "stored-context-object model of Store.contexts, PyVC/z3/cvc5.",
     },
+    "C04": {
+        "modules": ["contracts.c04_primitives", "contracts.c04_expr"],
+        "claim_level": "other",
+        "design_ref": "6.4",
+        "technique": TECH,
+        "clauses_decided": [
+            "FrozenDict.compatible == 'agree on every common variable' (proved, loop invariant); evalutils._join yields "
+            "exactly one merge(x, y) per pair of compatible occurrences (x in a, y in b) - soundness, completeness and "
+            "no duplicates, so multiplicities are those of the SPARQL Join; evalutils._minus keeps x iff no y in b is "
+            "compatible with x and shares a variable with it (proved: soundness, completeness)",
+            "ConditionalOrExpression: TRUE iff some operand's EBV is TRUE (also when another operand errs), an error iff "
+            "none is TRUE and some operand errs, FALSE otherwise (proved, loop invariant over an arbitrary operand "
+            "collection, EBV external with three outcomes)",
+            "FrozenBindings.forget(before, except): keeps exactly the bindings whose variable was unbound before (is None "
+            "- a falsy term is a binding), or is in initBindings, or is excepted (proved for an arbitrary variable)",
+            "QueryContext.__setitem__: raises AlreadyBound iff the variable is bound to a different term (falsy terms "
+            "included), otherwise records the binding; state unchanged when it raises (proved)",
+        ],
+        "clauses_not_decided": [
+            "translation of query text to algebra (translateGroupGraphPattern, filter collection, scoping) and the "
+            "top-down evaluators evalBGP / evalLazyJoin / evalLeftJoin / evalFilter / evalExtend / evalGraph: their "
+            "equivalence with bottom-up evaluation is a relational property of recursive functions over the algebra "
+            "tree - not brought under contract; covered by the bounded differential run against an independent "
+            "bottom-up evaluator only",
+            "ConditionalAndExpression (all() over a generator that may raise is outside the PyVC subset), the other "
+            "operators, EBV itself: bounded only",
+        ],
+        "explanation": "The algebra primitives that carry multiset semantics and the scoping/error helpers are proved "
+                       "against their SPARQL 1.1 definitions; the composition (translator + top-down evaluator) is "
+                       "compared with a reference evaluator on an enumerated query space (bounded).",
+        "assumptions": A_COMMON,
+        "level_text": "Deductive proof of the join/minus/compatibility primitives, the || error rule and the scoping "
+                      "helpers; whole-query equivalence with the algebra is bounded (differential run), hence 'other'.",
+        "level_note": "Trusted: dict(chain(..)) / FrozenBindings(ctx, pairs) builtin axioms, EBV as an external function, "
+                      "the Bindings chain abstracted as one map, PyVC/z3.",
+    },
+    "C08": {
+        "modules": ["contracts.c08_aggregates"],
+        "claim_level": "other",
+        "design_ref": "6.8",
+        "technique": TECH,
+        "clauses_decided": [
+            "one fold step of each accumulator, for all rows and all running values: COUNT +1 exactly for rows whose "
+            "expression is bound (and the value joins the DISTINCT set); MIN/MAX take the first value as is and pick(old, "
+            "new) afterwards - also when the running extremum is a falsy term - and skip unbound/type-error rows; SUM adds "
+            "numeric(e) and folds the datatype through type_promotion; AVG advances sum and counter together (proved)",
+        ],
+        "clauses_not_decided": [
+            "ORDER BY (stable multi-key sort with DESC), LIMIT/OFFSET slicing, DISTINCT/REDUCED, projection, grouping "
+            "(evalGroup/evalAggregateJoin), HAVING, the aggregate rewriting in algebra.translateAggregates, SAMPLE and "
+            "GROUP_CONCAT, empty-group results: sequence-level properties over sorted()/islice - bounded stand-in "
+            "against an independent reference only",
+        ],
+        "explanation": "Accumulators are folds; the step functions are straight-line code and proved. Everything at the "
+                       "level of solution sequences is compared with a reference implementation on enumerated queries.",
+        "assumptions": A_COMMON,
+        "level_text": "Proof of the accumulator step functions; modifiers and grouping are bounded; 'other'.",
+        "level_note": "Trusted: _eval as external function (value / NotBoundError / SPARQLTypeError), numeric tower as "
+                      "integers (A1), type_promotion table uninterpreted, min/max(key=_val) as a choice function.",
+    },
+    "C10": {
+        "modules": [],
+        "claim_level": "bounded",
+        "design_ref": "6.10",
+        "technique": "bounded stand-in on the real code (exhaustive over an enumerated operation space against a reference "
+                     "implementation of the SPARQL 1.1 Update semantics); no function of update.py is under a proved "
+                     "contract yet",
+        "clauses_decided": [],
+        "clauses_not_decided": [
+            "all clauses: evalModify / evalDeleteWhere / evalInsertData / evalDeleteData / evalClear / evalDrop / evalAdd / "
+            "evalMove / evalCopy operate on the engine's QueryContext, the algebra CompValue tree and Graph-level "
+            "operators; bringing them under PyVC contracts needs the Graph contracts of C01/C02 composed with a model of "
+            "QueryContext - not done; bounded only",
+        ],
+        "explanation": "Reference semantics on a plain dict model of the dataset, 44 operations + operation pairs, both "
+                       "settings of the engine's default-graph-is-union switch.",
+        "assumptions": A_COMMON,
+        "level_text": "Bounded only: exhaustive over the enumerated operations x datasets x switch settings.",
+        "level_note": "Nothing proved; the reference implementation in bounded/c10.py is trusted as the oracle.",
+    },
+    "C11": {
+        "modules": ["contracts.c11_paths"],
+        "claim_level": "other",
+        "design_ref": "6.11",
+        "technique": TECH,
+        "clauses_decided": [
+            "InvPath.eval yields exactly the converse of the argument's relation and AlternativePath.eval exactly the union "
+            "of the alternatives' relations, restricted to the ends that are not None (bound ends respected whatever the "
+            "term's truthiness) - proved: soundness per yield and completeness per argument shape, against the abstract "
+            "relation rel(p, s, o) with eval_path as the only callee",
+        ],
+        "clauses_not_decided": [
+            "SequencePath.eval (recursive closures over list slices), MulPath.eval (closure with a seen-set, termination on "
+            "cycles, duplicate-freedom, zero-length matches) and NegatedPath.eval: bounded stand-in only (relational "
+            "reference semantics, every operator, nesting depth 2, all bound/unbound combinations, falsy end points)",
+            "translation of SPARQL path syntax (algebra.translatePath, parser): bounded only",
+        ],
+        "explanation": "The non-recursive operators are proved against the relational definition; closures and sequences "
+                       "are compared with a reference implementation of the relational semantics.",
+        "assumptions": A_COMMON,
+        "level_text": "Proof for inverse and alternative paths; the recursive operators are bounded; 'other'.",
+        "level_note": "Trusted: eval_path contract (Graph.triples for IRIs - C01 - and the other operators' eval), PyVC/z3.",
+    },
+    "C16": {
+        "modules": ["contracts.c16_results"],
+        "extra": [{"kind": "vt", "name": "json-round-trip-lemma", "module": "contracts.c16_results"}],
+        "claim_level": "other",
+        "design_ref": "6.16",
+        "technique": TECH,
+        "clauses_decided": [
+            "SPARQL JSON, term level: termToJSON(t) is exactly the JSON object of t (type, value, datatype iff the literal has "
+            "one, xml:lang iff it has a language; None stays None) and parseJsonTerm(d) is exactly the term d denotes "
+            "(unknown type raises) - both proved against spec functions json_of / term_of; lemma (z3): term_of(json_of(t)) "
+            "== t for every term, and json_of is injective",
+        ],
+        "clauses_not_decided": [
+            "the row/variable structure of the JSON format (JSONResultSerializer.serialize, JSONResult._get_bindings), SPARQL "
+            "XML (SAX writer + ElementTree reader), TSV (pyparsing grammar) and CSV: external libraries and string grammars; "
+            "bounded stand-in only (29-term zoo x unbound patterns x empty rows x variable order)",
+        ],
+        "explanation": "Two straight-line functions carry the term mapping of the JSON format; they are proved equal to "
+                       "spec functions whose composition is the identity (lemma).",
+        "assumptions": A_COMMON,
+        "level_text": "Proof of the JSON term mapping round trip for all terms; table structure and the other three formats "
+                      "bounded; 'other'.",
+        "level_note": "Trusted: Literal(lex, datatype, lang) re-creates the literal (normalisation idempotent - C09 bounded), "
+                      "dict literal semantics (A3), PyVC/z3.",
+    },
     "C18": {
         "modules": ["contracts.c18_auditable"],
         "claim_level": "other",
